@@ -31,6 +31,8 @@ impl std::fmt::Debug for Callback {
 
 #[derive(Debug)]
 pub struct Inner {
+    /// `write` accepts at most this many bytes per call (a destination that takes data in pieces)
+    pub max_write: Option<usize>,
     /// called (once) at the beginning of the k-th call
     pub on_call: Option<(u64, Callback)>,
     pub data: Vec<u8>,
@@ -53,6 +55,7 @@ impl Dest {
     pub fn new(prefill: Vec<u8>, pos: u64) -> Self {
         Dest(Rc::new(RefCell::new(Inner {
             on_call: None,
+            max_write: None,
             data: prefill,
             pos,
             log: vec![],
@@ -66,6 +69,10 @@ impl Dest {
     }
     pub fn on_call(&mut self, k: u64, f: Box<dyn Fn()>) {
         self.0.borrow_mut().on_call = Some((k, Callback(f)));
+    }
+    pub fn with_max_write(self, n: Option<usize>) -> Self {
+        self.0.borrow_mut().max_write = n.map(|n| n.max(1));
+        self
     }
     pub fn with_fault(self, f: Fault) -> Self {
         self.0.borrow_mut().fault = f;
@@ -110,6 +117,10 @@ impl Write for Dest {
     fn write(&mut self, buf: &[u8]) -> std::io::Result<usize> {
         let mut s = self.0.borrow_mut();
         s.tick()?;
+        let buf = match s.max_write {
+            Some(n) if buf.len() > n => &buf[..n],
+            _ => buf,
+        };
         let at = s.pos as usize;
         if s.data.len() < at + buf.len() {
             s.data.resize(at + buf.len(), 0);
